@@ -29,10 +29,12 @@ def look (t : List (String × String)) (d : String) (k : Kind) : String := (t.lo
 /-- `generateMockFieldAssignments`: the action the model takes per kind is the case the source has. -/
 theorem tables_assign : ∀ k ∈ allKinds, (actionOf k).name = look Gen.Mock.assign Gen.Mock.assignDefault k := by decide
 
-/-- the message case is: map → sample entry, list → nothing, otherwise allocate and recurse;
+/-- the message case is: map → sample entry, list → nothing, type on the current path → nothing,
+otherwise allocate and recurse;
 and no other place of the file consults cardinality, presence or oneof membership. -/
 theorem tables_message_cases :
-    Gen.Mock.messageCases = [("field.Desc.IsMap()", "map"), ("field.Desc.IsList()", "todo"), ("default", "alloc_recurse")] ∧
+    Gen.Mock.messageCases = [("field.Desc.IsMap()", "map"), ("field.Desc.IsList()", "todo"),
+      ("visiting[string(field.Message.Desc.FullName())]", "comment_only"), ("default", "alloc_recurse")] ∧
     Gen.Mock.cardinalityMentions = [("IsList", 1), ("IsMap", 1)] := by decide
 
 /-- the selectors: Go return type, parse call, and "pick, parse, else default" control flow. -/
@@ -83,7 +85,15 @@ theorem tables_keys :
 /-- the map emitter as transcribed. -/
 theorem tables_map_emitter :
     (Gen.Mock.mapValueIsMessageTest && Gen.Mock.mapKeyFromSampleKey && Gen.Mock.mapKeyTypeFromScalar &&
-     Gen.Mock.mapValueTypeFromScalar && Gen.Mock.mapScalarValueFromDefault && Gen.Mock.mapMessageValueRecurses) = true := by decide
+     Gen.Mock.mapValueTypeFromScalar && Gen.Mock.mapScalarValueFromDefault && Gen.Mock.mapMessageValueRecurses &&
+     Gen.Mock.mapMessageValueGuarded) = true := by decide
+
+/-- the recursion guard (since b58be88): a set keyed by full message name that starts empty at the
+response type, is entered on entry and left on return (so it holds exactly the current path), is
+handed to every recursive call, and is consulted before a singular child or a map value is filled. -/
+theorem tables_recursion_guard :
+    (Gen.Mock.visitingStartsEmpty && Gen.Mock.visitingKeyIsFullName && Gen.Mock.visitingEnteredOnEntry &&
+     Gen.Mock.visitingLeftOnReturn && Gen.Mock.visitingPassedDown && Gen.Mock.visitingPassedToMap) = true := by decide
 
 /-! ## What holds -/
 
@@ -91,9 +101,9 @@ theorem tables_map_emitter :
 every emitted assignment type-checks and the example table holds valid text, the value a mock RPC
 returns — for every schema, every depth and every outcome of the random draws — inhabits the
 response type. -/
-theorem mock_wellTyped_partial (rq : Request) (env : Env) (hc : CleanTable env.tbl) (fuel : Nat) (site : Str) (m : Message)
-    (hb : msgDefects rq fuel m = []) : wt rq fuel m (mockMsg rq env fuel site m) = true :=
-  wt_mockMsg rq env hc fuel site m hb
+theorem mock_wellTyped_partial (rq : Request) (env : Env) (hc : CleanTable env.tbl) (fuel : Nat) (path : List Str) (site : Str)
+    (m : Message) (hb : msgDefects rq fuel path m = []) : wt rq fuel m (mockMsg rq env fuel path site m) = true :=
+  wt_mockMsg rq env hc fuel path site m hb
 
 /-- which fields the emitted assignments type-check for: singular, non-oneof string / int64 / bool /
 double fields, and every kind the emitter skips. -/
@@ -101,8 +111,8 @@ def SimpleField (f : Field) : Prop :=
   f.card ≠ .map ∧ (actionOf f.kind = .todo ∨
     ((f.kind = .string ∨ f.kind = .int64 ∨ f.kind = .bool ∨ f.kind = .double) ∧ f.card = .singular ∧ f.oneof = none))
 
-theorem assign_typing_partial (rq : Request) (fuel : Nat) (m : Message) (h : ∀ f ∈ m.fields, SimpleField f) :
-    msgDefects rq (fuel + 1) m = [] := by
+theorem assign_typing_partial (rq : Request) (fuel : Nat) (path : List Str) (m : Message) (h : ∀ f ∈ m.fields, SimpleField f) :
+    msgDefects rq (fuel + 1) path m = [] := by
   unfold msgDefects
   rw [List.flatMap_eq_nil_iff]
   intro f hf
@@ -176,7 +186,7 @@ def rq1 (ms : List Message) : Request := { files := [file1 ms] }
 def decl (m f : String) (exs : List String) : Str × Str × List Str := ((".p." ++ m).toList, f.toList, exs.map String.toList)
 
 /-- defects of a single-field response. -/
-def cell (f : Field) : List String := msgDefects (rq1 [msg "R" [f], msg "Leaf" [fld "street" .string]]) 3 (msg "R" [f])
+def cell (f : Field) : List String := msgDefects (rq1 [msg "R" [f], msg "Leaf" [fld "street" .string]]) 3 [] (msg "R" [f])
 
 /-! ### (a) the package does not build -/
 
@@ -223,14 +233,14 @@ def rTitle : Message := msg "R" [fld "title" .string]
 that is not UTF-8: the value is not well typed (the server answers 500). -/
 theorem w_string_not_utf8 :
     let d := [decl "R" "title" ["\\xff"]]
-    let vs := mockMsg (rq1 [rTitle]) (envOf (file1 [rTitle]) d) 2 [] rTitle
+    let vs := mockMsg (rq1 [rTitle]) (envOf (file1 [rTitle]) d) 2 [] [] rTitle
     exampleTable (file1 [rTitle]) d = .ok [("R.title".toList, [none])] ∧
     wt (rq1 [rTitle]) 2 rTitle vs = false ∧ (vs.any fun p => hasBadUtf8 3 p.2) = true := by decide
 
 /-- `a\tb` (backslash, t) becomes a TAB: the field holds a string that is not among its examples. -/
 theorem w_example_altered_by_literal_reading :
     let d := [decl "R" "title" ["a\\tb"]]
-    let vs := mockMsg (rq1 [rTitle]) (envOf (file1 [rTitle]) d) 2 [] rTitle
+    let vs := mockMsg (rq1 [rTitle]) (envOf (file1 [rTitle]) d) 2 [] [] rTitle
     wt (rq1 [rTitle]) 2 rTitle vs = true ∧ dishonoured (rq1 [rTitle]) d [] 2 [] rTitle vs = [".title".toList] := by decide
 
 def rInner : Message := msg "R" [{ fld "inner" .message with typeName := ".p.R.Inner".toList }]
@@ -242,14 +252,14 @@ theorem w_example_ignored_nested_message :
     let ms := [rInner, inner]
     let d := [decl "R.Inner" "city" ["Oslo"]]
     exampleTable (file1 ms) d = .ok [("R.Inner.city".toList, [some "Oslo".toList])] ∧
-    dishonoured (rq1 ms) d [] 3 [] rInner (mockMsg (rq1 ms) (envOf (file1 ms) d) 3 [] rInner) = [".inner.city".toList] := by decide
+    dishonoured (rq1 ms) d [] 3 [] rInner (mockMsg (rq1 ms) (envOf (file1 ms) d) 3 [] [] rInner) = [".inner.city".toList] := by decide
 
 /-- … unless a top-level message has the same short name: then ITS examples are taken. -/
 theorem w_example_wrong_short_name_collision :
     let ms := [rInner, inner, msg "Inner" [fld "city" .string]]
     let d := [decl "R.Inner" "city" ["Oslo"], decl "Inner" "city" ["Paris"]]
-    mockMsg (rq1 ms) (envOf (file1 ms) d) 3 [] rInner = [("inner".toList, .msg [("city".toList, .str "Paris".toList)])] ∧
-    dishonoured (rq1 ms) d [] 3 [] rInner (mockMsg (rq1 ms) (envOf (file1 ms) d) 3 [] rInner) = [".inner.city".toList] := by
+    mockMsg (rq1 ms) (envOf (file1 ms) d) 3 [] [] rInner = [("inner".toList, .msg [("city".toList, .str "Paris".toList)])] ∧
+    dishonoured (rq1 ms) d [] 3 [] rInner (mockMsg (rq1 ms) (envOf (file1 ms) d) 3 [] [] rInner) = [".inner.city".toList] := by
   constructor
   · rfl
   · decide
@@ -258,14 +268,14 @@ theorem w_example_wrong_short_name_collision :
 theorem w_example_ignored_kind_without_selector :
     let r := msg "R" [fld "rank" .uint32]
     let d := [decl "R" "rank" ["5"]]
-    dishonoured (rq1 [r]) d [] 2 [] r (mockMsg (rq1 [r]) (envOf (file1 [r]) d) 2 [] r) = [".rank".toList] := by decide
+    dishonoured (rq1 [r]) d [] 2 [] r (mockMsg (rq1 [r]) (envOf (file1 [r]) d) 2 [] [] r) = [".rank".toList] := by decide
 
 /-- a list with one unparsable member: that draw yields 42, which is not an example. -/
 theorem w_example_fallback_unparsable_member :
     let r := msg "R" [fld "count" .int64]
     let d := [decl "R" "count" ["abc", "7"]]
-    dishonoured (rq1 [r]) d [] 2 [] r (mockMsg (rq1 [r]) (envOf (file1 [r]) d [] (fun _ => 0)) 2 [] r) = [".count".toList] ∧
-    dishonoured (rq1 [r]) d [] 2 [] r (mockMsg (rq1 [r]) (envOf (file1 [r]) d [] (fun _ => 1)) 2 [] r) = [] := by decide
+    dishonoured (rq1 [r]) d [] 2 [] r (mockMsg (rq1 [r]) (envOf (file1 [r]) d [] (fun _ => 0)) 2 [] [] r) = [".count".toList] ∧
+    dishonoured (rq1 [r]) d [] 2 [] r (mockMsg (rq1 [r]) (envOf (file1 [r]) d [] (fun _ => 1)) 2 [] [] r) = [] := by decide
 
 /-- a double example `NaN` is taken (the example IS honoured), protojson prints it as the string
 "NaN", and the published schema of a double says `number`. -/
@@ -274,7 +284,7 @@ theorem w_schema_invalid_non_finite_double :
     let r := msg "R" [f]
     let d := [decl "R" "score" ["NaN"]]
     let floats := [("NaN".toList, ({ tok := "NaN".toList, quoted := true } : FloatRow))]
-    let vs := mockMsg (rq1 [r]) (envOf (file1 [r]) d floats) 2 [] r
+    let vs := mockMsg (rq1 [r]) (envOf (file1 [r]) d floats) 2 [] [] r
     let schema := Json.obj [("type".toList, .str "object".toList),
       ("properties".toList, .obj [("score".toList, .obj [("type".toList, .str "number".toList), ("format".toList, .str "double".toList)])])]
     vs = [("score".toList, .float "NaN".toList true)] ∧ dishonoured (rq1 [r]) d floats 2 [] r vs = [] ∧
@@ -282,20 +292,47 @@ theorem w_schema_invalid_non_finite_double :
     Schema.valid [] 6 schema (Json.obj [("score".toList, .str "NaN".toList)]) = false :=
   ⟨rfl, by decide, by decide, by decide⟩
 
-/-! ### recursion (the same defect as C16 `no_answer:go-http:mock_recursive_response`) -/
+/-! ### recursion (fixed by b58be88: the emitter carries the set of messages on the current path) -/
 
 def node : Message := msg "Node" [fld "label" .string, { fld "next" .message with typeName := ".p.Node".toList }]
+def treeNode : Message := msg "Tree" [{ fld "kids" .message with typeName := ".p.Tree".toList, card := .map },
+  { fld "pair" .message with typeName := ".p.Pair".toList }]
+def pairNode : Message := msg "Pair" [{ fld "left" .message with typeName := ".p.Tree".toList, card := .optional }, fld "ok" .bool]
 
-theorem w_recursive_response_never_finishes : ∀ fuel, finishes (rq1 [node]) fuel node = false := by
-  intro fuel
-  induction fuel with
-  | zero => rfl
-  | succ n ih =>
-    simp [finishes, node, msg, fld] at ih ⊢
-    exact ih
+/-- a self-referential response type: the recursion ends, the recursive field is simply absent. -/
+theorem recursive_response_answers :
+    finishes (rq1 [node]) 2 [] node = true ∧ msgDefects (rq1 [node]) 2 [] node = [] ∧
+    mockMsg (rq1 [node]) {} 2 [] [] node = [("label".toList, .str "example string".toList)] :=
+  ⟨by decide, by decide, rfl⟩
 
-/-- on the type graph of C16's model the same: the unguarded recursion runs out of any fuel. -/
-theorem w_recursive_response_graph : ∀ fuel, mockAssign [("A".toList, ["A".toList])] fuel "A".toList = Outcome.outOfFuel :=
+/-- mutual recursion and recursion through a map value: both children on the path stay unset
+(no `kids` map at all, `pair.left` absent), everything else is filled. -/
+theorem mutually_recursive_response_answers :
+    finishes (rq1 [treeNode, pairNode]) 3 [] treeNode = true ∧
+    mockMsg (rq1 [treeNode, pairNode]) {} 3 [] [] treeNode = [("pair".toList, .msg [("ok".toList, .bool true)])] :=
+  ⟨by decide, rfl⟩
+
+/-- the guard is the PATH, not a visited set: a type met on two different branches is filled twice. -/
+theorem shared_type_filled_on_every_branch :
+    let leaf := msg "Leaf" [fld "ok" .bool]
+    let r := msg "R" [{ fld "a" .message with typeName := ".p.Leaf".toList }, { fld "b" .message with typeName := ".p.Leaf".toList }]
+    mockMsg (rq1 [r, leaf]) {} 3 [] [] r =
+      [("a".toList, .msg [("ok".toList, .bool true)]), ("b".toList, .msg [("ok".toList, .bool true)])] := rfl
+
+/-- a recursive oneof member emits no statement any more, so it no longer breaks the build
+(a non-recursive message member still does: `w_oneof_member`). -/
+theorem recursive_oneof_member_builds :
+    let n := msg "Node" [{ fld "next" .message with typeName := ".p.Node".toList, oneof := some "pick".toList },
+      { fld "other" .uint32 with oneof := some "pick".toList }]
+    msgDefects (rq1 [n]) 2 [] n = [] := by decide
+
+/-- the guarded recursion ends on EVERY type graph (C16's graph model of the same recursion). -/
+theorem guarded_recursion_terminates (g : Graph) (path : List Str) (m : Str) :
+    ∃ k, mockAssignGuarded g path m = Outcome.done k :=
+  mockAssignGuarded_done g path m
+
+/-- regression witness: the recursion before b58be88 (no guard) ran out of any fuel on a self loop. -/
+theorem unguarded_recursion_diverged : ∀ fuel, mockAssign [("A".toList, ["A".toList])] fuel "A".toList = Outcome.outOfFuel :=
   mockAssign_diverges_on_self_loop
 
 /-! ## The full statement and its refutation -/
@@ -304,9 +341,9 @@ theorem w_recursive_response_graph : ∀ fuel, mockAssign [("A".toList, ["A".toL
 emitted OpenAPI document and is decided per answer by the harness with `Schema.valid`). -/
 def Full : Prop :=
   ∀ (rq : Request) (file : File) (d : Decls) (floats : List (Str × FloatRow)) (m : Message) (fuel : Nat)
-    (pick : Str → Nat), file ∈ rq.files → finishes rq fuel m = true →
-    (∃ t, exampleTable file d = .ok t) ∧ msgDefects rq fuel m = [] ∧
-    let vs := mockMsg rq (envOf file d floats pick) fuel [] m
+    (pick : Str → Nat), file ∈ rq.files → finishes rq fuel [] m = true →
+    (∃ t, exampleTable file d = .ok t) ∧ msgDefects rq fuel [] m = [] ∧
+    let vs := mockMsg rq (envOf file d floats pick) fuel [] [] m
     wt rq fuel m vs = true ∧ dishonoured rq d floats fuel [] m vs = []
 
 theorem not_full : ¬ Full := by
@@ -322,8 +359,8 @@ example :
     let r := msg "R" [fld "title" .string, fld "ok" .bool, { fld "leaf" .message with typeName := ".p.Leaf".toList },
       { fld "tags" .uint32 with card := .repeated }]
     let d := [decl "R" "title" ["héllo"], decl "Leaf" "zip" ["7", "+9"]]
-    let vs := mockMsg (rq1 [r, leaf]) (envOf (file1 [r, leaf]) d [] (fun _ => 1)) 3 [] r
-    msgDefects (rq1 [r, leaf]) 3 r = [] ∧ finishes (rq1 [r, leaf]) 3 r = true ∧ wt (rq1 [r, leaf]) 3 r vs = true ∧
+    let vs := mockMsg (rq1 [r, leaf]) (envOf (file1 [r, leaf]) d [] (fun _ => 1)) 3 [] [] r
+    msgDefects (rq1 [r, leaf]) 3 [] r = [] ∧ finishes (rq1 [r, leaf]) 3 [] r = true ∧ wt (rq1 [r, leaf]) 3 r vs = true ∧
     dishonoured (rq1 [r, leaf]) d [] 3 [] r vs = [] := by decide
 
 def titleKey : Str := "R.title".toList
